@@ -28,10 +28,10 @@ class SgraphFromSelectorsTripleYielder(BaseTriplesYielder):
 
 
     def _collect_every_target_node(self):
-        result = set()
+        result = {}  # a dict keeps the order in which the selectors gave the nodes (a set would order them by hash)
         for an_item in self._shape_map.yield_items():
             for a_node in an_item.node_selector.get_target_nodes():
-                result.add(a_node)
+                result[a_node] = None
         return list(result)
 
 
